@@ -3,7 +3,7 @@
 (* sequences of N limbs in base B (the trace specifications use B = 2^16, N = 4 *)
 (* for the 64-bit counters and weights of the implementation; MC_Wide checks    *)
 (* the operators against ordinary integers for a small base).                   *)
-EXTENDS Integers, Sequences, FiniteSets
+EXTENDS Integers, Sequences, FiniteSets, SequencesExt
 
 CONSTANTS B, N
 
@@ -30,6 +30,17 @@ LeqFrom(a, b, i) ==
 WLeq(a, b) == LeqFrom(a, b, N)
 WMin(S) == CHOOSE x \in S : \A y \in S : WLeq(x, y)
 
-RECURSIVE WSum(_)
-WSum(s) == IF s = <<>> THEN WZero ELSE WAdd(Head(s), WSum(Tail(s)))
+\* a * m for a small multiplier m (m <= B / 2 keeps every product inside TLC's integers when B = 2^16)
+RECURSIVE MulCarry(_, _, _)
+MulCarry(a, m, i) == IF i = 1 THEN 0 ELSE (a[i - 1] * m + MulCarry(a, m, i - 1)) \div B
+WMulSmall(a, m) == [i \in 1..N |-> (a[i] * m + MulCarry(a, m, i)) % B]
+\* a * 2^s (bits shifted out of the top limb are dropped); B is a power of two
+LgB == CHOOSE n \in 1..30 : 2 ^ n = B
+WShlLimbs(a, q) == [i \in 1..N |-> IF i - q >= 1 THEN a[i - q] ELSE 0]
+WShl(a, s) == WShlLimbs(WMulSmall(a, 2 ^ (s % LgB)), s \div LgB)
+\* a small non-negative integer (below B * B) as limbs
+WOfSmall(x) == [i \in 1..N |-> IF i = 1 THEN x % B ELSE IF i = 2 THEN (x \div B) % B ELSE 0]
+
+\* (a fold over values: a recursive definition would re-evaluate its lazily bound argument at every use)
+WSum(s) == FoldLeft(WAdd, WZero, s)
 ===============================================================================
